@@ -6,7 +6,7 @@ from ..core import R
 
 ID = "C34"
 LEVEL = "exploration"
-CASE_TIMEOUT = 240.0
+CASE_TIMEOUT = 60.0
 RULE = ("A case is a HISTORY on one odefun object. Problems (all parameters, x0, y0 and evaluation points are small dyadic "
         "rationals, so the ODE is the same at every precision): y'=ay; y'=ay+b; harmonic oscillator [y1, -w^2 y0]; damped "
         "oscillator [y1, -w0^2 y0 - 2g y1] with w0^2 = g^2 + wd^2; y'=-y^2 (solution 1/(x-x0+1/y0), evaluation stays at "
@@ -21,13 +21,17 @@ RULE = ("A case is a HISTORY on one odefun object. Problems (all parameters, x0,
         "|f(x) - y(x)| <= tol * (2 + x - x0) * G * max(1, S) + 2^(1-p_now) |y|, tol = requested tol or 2^(10-p) for the "
         "precision at creation, G = growth of perturbations over [x0, x] (e^(a+ (x-x0)), norm of the propagator, "
         "(y(x)/y0)^2 for the Riccati problem, e^(x^2 - min s^2) for y'=2xy), S = size of the solution on [x0, x]; "
-        "(ii) order independence: a second odefun created with identical arguments and evaluated once at the sorted "
-        "distinct points at the creation precision agrees with every value of the history within the same bound; "
+        "(ii) order independence: a second odefun (the twin) created with identical arguments and evaluated once at the "
+        "sorted distinct points at the creation precision agrees with every value of the history within the same bound; "
         "repeated evaluation at the same x at the same precision returns identical values; mp.prec is unchanged by an "
-        "evaluation; results are mpf / lists of mpf. When (i) fails, a differential diagnosis (same problem, odefun "
-        "created at p+40 bits with tol and degree pinned) decides whether the error comes from the first Taylor segment "
-        "being computed at the caller's precision (bucket accuracy:first-segment) or not. Non-trivial = the evaluation "
-        "order is not monotone increasing, or the precision changes between evaluations.")
+        "evaluation; results are mpf / lists of mpf; the history must not need more than 4x (+2000) the evaluations "
+        "of F that the twin needed for the same points (bucket runaway: an evaluation that depends on the history so "
+        "much that it does not finish). A sixth of the exp/harm cases are the docstring's own problems (y'=+-y, "
+        "y(0)=1; y''=-y) at a precision drawn uniformly from 30..200. When (i) fails, a differential diagnosis (the same "
+        "history replayed on an instance created at p+40 bits with tol and degree pinned) decides whether the error "
+        "comes from the first Taylor segment being computed at the caller's precision (bucket accuracy:first-segment) "
+        "or not. Non-trivial = the evaluation order is not monotone increasing, or the precision changes between "
+        "evaluations.")
 ASSUMPTIONS = ["mpref (frozen mpmath 1.3.0) evaluates exp, sin, cos and rational expressions correctly at 3p+100 bits",
                "the diagnosis that names the bucket of an accuracy violation (not the verdict) re-runs /repo's odefun at "
                "higher precision and reads series_boundaries from the closure of the returned function"]
@@ -60,6 +64,11 @@ def gen_case(d, shard, tier):
     tol = None
     degree = None
     k = d.weighted([(5, "default"), (2, "tol"), (2, "both"), (1, "degree")])
+    doc = fam in ("exp", "harm") and d.int(0, 5) == 0
+    if doc:
+        # the docstring's own problems (y' = +-y, y(0) = 1; y'' = -y, y(0) = 1, y'(0) = 0) at any precision
+        p = d.int(30, 200)
+        k = "doc"
     if k in ("tol", "both"):
         if d.bool():
             e = d.int(2, max(2, min(12, int((p - 4) * 0.30103))))
@@ -89,7 +98,16 @@ def gen_case(d, shard, tier):
     q = lambda lo, hi, den: [d.int(lo, hi), den]
     nz = lambda m, den: [d.choice([-1, 1]) * d.int(1, m), den]
     ricc_y0 = None
-    if fam == "exp":
+    if doc:
+        x0 = [0, 1]
+        if fam == "exp":
+            par["a"] = [d.choice([-8, 8]), 8]
+            y0 = [[4, 4]]
+            Lfam = 12.0
+        else:
+            par["w"] = [8, 8]
+            y0 = [[4, 4], [0, 4]]
+    elif fam == "exp":
         par["a"] = nz(32, 8)
         y0 = [nz(12, 4)]
         lam = abs(par["a"][0]) / 8.0
@@ -192,6 +210,8 @@ def gen_case(d, shard, tier):
     c = {"fam": fam, "par": par, "x0": x0, "y0": y0, "scalar": bool(dim == 1 and d.int(0, 3) != 0),
          "prec": p, "tol": tol, "degree": degree, "pts": pts, "ops": ops,
          "x_as_int": d.bool(),
+         # expected effort (segments of the estimated step length, F evaluations per segment): a safety cap only
+         "effort": int((L16 / 16.0 / r + 3) * n),
          "cls": "%s:%s" % (fam, k)}
     return c
 
@@ -379,6 +399,10 @@ def _to_fraction(x):
 
 # ------------------------------------------------------------------------------------------------- the check
 
+class _Runaway(Exception):
+    pass
+
+
 def check_case(c):
     import mpmath
     from mpmath import mp
@@ -392,7 +416,14 @@ def check_case(c):
         mp.prec = p0
         mpref.mp.prec = 3 * max(p0, 60) + 100
         prob = Problem(c, mp, mpref)
-        F = prob.scalar_F()
+        F0 = prob.scalar_F()
+        calls = [0, None]            # F evaluations, cap
+
+        def F(x, y):
+            calls[0] += 1
+            if calls[1] is not None and calls[0] > calls[1]:
+                raise _Runaway()
+            return F0(x, y)
         x0 = Problem.num(mp, prob.x0f)
         y0l = [Problem.num(mp, v) for v in prob.y0f]
         y0 = y0l[0] if (prob.dim == 1 and c["scalar"]) else y0l
@@ -414,17 +445,12 @@ def check_case(c):
             fam, c["par"], prob.x0f, [str(v) for v in prob.y0f] if not (prob.dim == 1 and c["scalar"]) else str(prob.y0f[0]),
             "".join(", %s=%s" % (k_, ("%s^-%d" % tuple(c["tol"])) if k_ == "tol" else v) for k_, v in sorted(kw.items())), p0)
 
-        def make(prec):
+        def make(prec, kwargs):
             mp.prec = prec
             try:
-                return mp.odefun(F, x0, y0, **kw)
+                return mp.odefun(F, x0, y0, **kwargs)
             finally:
                 mp.prec = p0
-
-        f = make(p0)
-        if mp.prec != p0:
-            res.bad("prec-leak:create", "%s: mp.prec = %d afterwards" % (desc, mp.prec))
-            mp.prec = p0
 
         def as_list(v, what):
             if prob.dim == 1 and c["scalar"]:
@@ -437,78 +463,149 @@ def check_case(c):
                 return None
             return list(v)
 
-        def bound(xf, pnow):
-            vals, G, S = prob.exact(xf)
-            L = Problem.num(mpref, xf - prob.x0f)
-            ymax = max(abs(t) for t in vals)
-            b = tolr * (2 + L) * G * max(1, S) + mpref.ldexp(ymax, 1 - pnow)
-            return vals, b
+        cache = {}
 
-        # ---- the history
-        cur = p0
-        hist = []            # (xf, x, pnow, values)
-        seen = {}
-        order_x = []
-        nchanges = 0
-        for op in c["ops"]:
-            if op[0] == "prec":
-                if op[1] != cur:
-                    nchanges += 1
-                cur = op[1]
-                mp.prec = cur
-                continue
-            if op[0] == "bnd":
-                bl = _boundaries(f)
-                if not bl:
-                    continue
-                x = bl[op[1] % len(bl)]
-                xf = _to_fraction(x)
-                xarg = x
-            else:
-                xf = prob.x0f + Fraction(c["pts"][op[1]], 16)
-                mp.prec = max(cur, 64)
-                x = Problem.num(mp, xf)                 # exact (a few bits)
-                mp.prec = cur
-                xarg = int(xf) if (c["x_as_int"] and xf.denominator == 1) else x
-            v = f(xarg)
-            if mp.prec != cur:
-                res.bad("prec-leak:eval", "%s: evaluation at x=%s at prec %d left mp.prec = %d" % (desc, xf, cur, mp.prec))
-                mp.prec = cur
-            vl = as_list(v, "f(%s)" % xf)
+        def bound(xf, pnow):
+            if xf not in cache:
+                vals, G, S = prob.exact(xf)
+                L = Problem.num(mpref, xf - prob.x0f)
+                cache[xf] = (vals, tolr * (2 + L) * G * max(1, S), max(abs(t) for t in vals))
+            vals, b, ymax = cache[xf]
+            return vals, b + mpref.ldexp(ymax, 1 - pnow)
+
+        def mkx(xf):
+            mp.prec = max(p0, 64) + 60
+            try:
+                return Problem.num(mp, xf)                  # exact: a short dyadic number, or a boundary (workprec bits)
+            finally:
+                mp.prec = p0
+
+        # ---- the twin: identical arguments, sorted distinct points, creation precision throughout
+        calls[1] = 20 * c.get("effort", 10 ** 6) + 20000        # safety net (a mutated tree may crawl): inconclusive
+        try:
+            return _rest(c, res, mp, mpref, prob, calls, make, kw, as_list, bound, mkx, desc, fam, p0)
+        except _Runaway:
+            res.inconclusive = True
+            return res
+    finally:
+        mp.prec = 53
+        mpref.mp.prec = refprec0
+
+
+def _rest(c, res, mp, mpref, prob, calls, make, kw, as_list, bound, mkx, desc, fam, p0):
+    if True:
+        g = make(p0, kw)
+        if mp.prec != p0:
+            res.bad("prec-leak:create", "%s: mp.prec = %d afterwards" % (desc, mp.prec))
+            mp.prec = p0
+        planned = sorted(set(prob.x0f + Fraction(c["pts"][op[1]], 16) for op in c["ops"] if op[0] == "eval"))
+        gv = {}
+        for xf in planned:
+            vl = as_list(g(mkx(xf)), "g(%s)" % xf)
             if vl is None:
                 return res
-            key = (xf, cur)
-            raws = [tuple(t._mpf_) for t in vl]
-            if key in seen and seen[key] != raws:
-                res.bad("repeat:%s" % fam, "%s: two evaluations at x=%s at the same precision %d gave %s and %s" % (
-                    desc, xf, cur, [mp.nstr(mp.make_mpf(t), 20) for t in seen[key]], [mp.nstr(t, 20) for t in vl]))
-            seen.setdefault(key, raws)
-            hist.append((xf, x, cur, vl))
-            order_x.append(xf)
-        mp.prec = p0
+            gv[xf] = vl
+        # segment boundaries (white box; the points where the lookup switches segments)
+        bl = _boundaries(g)
+        bnds = [_to_fraction(b) for b in bl] if bl else []
+        xs_ops = []
+        for op in c["ops"]:
+            if op[0] == "eval":
+                xs_ops.append(prob.x0f + Fraction(c["pts"][op[1]], 16))
+            elif op[0] == "bnd":
+                xs_ops.append(bnds[op[1] % len(bnds)] if bnds else None)
+            else:
+                xs_ops.append(None)
+        for xf in sorted(set(x for x in xs_ops if x is not None and x not in gv)):
+            vl = as_list(g(mkx(xf)), "g(%s)" % xf)
+            if vl is None:
+                return res
+            gv[xf] = vl
+        calls_g = calls[0]
+        calls[1] = None
+
+        # ---- the history
+        def run_history(f, label):
+            cur = p0
+            hist = []            # (xf, pnow, values)
+            seen = {}
+            mp.prec = p0
+            for op, xf in zip(c["ops"], xs_ops):
+                if op[0] == "prec":
+                    cur = op[1]
+                    mp.prec = cur
+                    continue
+                if xf is None:
+                    continue
+                x = mkx(xf)
+                mp.prec = cur
+                xarg = int(xf) if (c["x_as_int"] and xf.denominator == 1) else x
+                v = f(xarg)
+                if mp.prec != cur:
+                    res.bad("prec-leak:eval", "%s: evaluation at x=%s at prec %d left mp.prec = %d" % (desc, xf, cur, mp.prec))
+                    mp.prec = cur
+                vl = as_list(v, "%s(%s)" % (label, xf))
+                if vl is None:
+                    return None
+                key = (xf, cur)
+                raws = [tuple(t._mpf_) for t in vl]
+                if key in seen and seen[key] != raws and label == "f":
+                    res.bad("repeat:%s" % fam, "%s: two evaluations at x=%s at the same precision %d gave %s and %s" % (
+                        desc, xf, cur, [mp.nstr(mp.make_mpf(t), 20) for t in seen[key]], [mp.nstr(t, 20) for t in vl]))
+                seen.setdefault(key, raws)
+                hist.append((xf, cur, vl))
+            mp.prec = p0
+            return hist
+
+        def worst_error(hist):
+            worst = None
+            for xf, pnow, vl in hist:
+                vals, b = bound(xf, pnow)
+                err = max(abs(mpref.mp.make_mpf(g_._mpf_) - e) for g_, e in zip(vl, vals))
+                ratio = err / b
+                if worst is None or ratio > worst[0]:
+                    worst = (ratio, xf, pnow, vl, vals, err, b)
+            return worst
+
+        calls[0] = 0
+        calls[1] = 4 * calls_g + 2000
+        f = make(p0, kw)
+        try:
+            hist = run_history(f, "f")
+        except _Runaway:
+            mp.prec = p0
+            order = [str(x) if x is not None else "prec=%d" % op[1] for op, x in zip(c["ops"], xs_ops)]
+            res.nontrivial = True
+            return res.bad("runaway:%s" % fam, "%s: the history %s needs more than %d evaluations of F (and does not "
+                           "finish), the same points in increasing order at the creation precision need %d" % (
+                               desc, order, calls[1], calls_g))
+        finally:
+            calls[1] = None
+        if hist is None:
+            return res
         res.n = max(1, len(hist))
+        order_x = [h[0] for h in hist]
+        precs = [h[1] for h in hist]
         monotone = all(order_x[i] < order_x[i + 1] for i in range(len(order_x) - 1))
-        res.nontrivial = (not monotone) or nchanges > 0
+        res.nontrivial = (not monotone) or any(q != p0 for q in precs)
         if not hist:
             return res
 
         # ---- oracle (i): closed form
-        worst = None
-        for xf, x, pnow, vl in hist:
-            vals, b = bound(xf, pnow)
-            err = max(abs(mpref.mp.make_mpf(g._mpf_) - e) for g, e in zip(vl, vals))
-            if err and pnow >= p0:
-                lr = float(mpref.log(err / b, 2))
-                if "log2(err/bound)" not in res.metrics or lr > res.metrics["log2(err/bound)"]:
-                    res.metrics["log2(err/bound)"] = lr
-            if not err <= b:
-                ratio = err / b
-                if worst is None or ratio > worst[0]:
-                    worst = (ratio, xf, pnow, vl, vals, err, b)
-        if worst is not None:
+        for xf, pnow, vl in hist:
+            if pnow >= p0:
+                vals, b = bound(xf, pnow)
+                err = max(abs(mpref.mp.make_mpf(g_._mpf_) - e) for g_, e in zip(vl, vals))
+                if err:
+                    lr = float(mpref.log(err / b, 2))
+                    if "log2(err/bound)" not in res.metrics or lr > res.metrics["log2(err/bound)"]:
+                        res.metrics["log2(err/bound)"] = lr
+        worst = worst_error(hist)
+        accuracy_failed = worst[0] > 1
+        if accuracy_failed:
             ratio, xf, pnow, vl, vals, err, b = worst
-            # diagnosis: same problem with the creation precision raised by 40 bits, tol and degree pinned to the
-            # values the failing instance used
+            # diagnosis (names the bucket, not the verdict): replay the same history on an instance whose only
+            # difference is that it is created with 40 more bits (tol and degree pinned to the values in force)
             kw2 = dict(kw)
             if "tol" not in kw2:
                 kw2["tol"] = mp.ldexp(mp.mpf(1), -p0)
@@ -517,13 +614,10 @@ def check_case(c):
                 kw2["degree"] = 3 + int(3 * mp.dps / 2.)
             bucket = "accuracy:%s" % fam
             try:
-                mp.prec = p0 + 40
-                f2 = mp.odefun(F, x0, y0, **kw2)
-                mp.prec = max(64, p0)
-                v2 = f2(Problem.num(mp, xf))
-                v2 = v2 if isinstance(v2, (list, tuple)) else [v2]
-                err2 = max(abs(mpref.mp.make_mpf(g._mpf_) - e) for g, e in zip(v2, vals))
-                if err2 <= b:
+                nv = len(res.violations)
+                h2 = run_history(make(p0 + 40, kw2), "f2")
+                del res.violations[nv:]
+                if h2 and worst_error(h2)[0] <= 1:
                     bucket = "accuracy:first-segment"
             except Exception:
                 pass
@@ -532,31 +626,21 @@ def check_case(c):
             res.bad(bucket, "%s: f(%s) evaluated at prec %d = %s, exact %s; error %s is %s times the allowed %s%s" % (
                 desc, xf, pnow, [mp.nstr(t, 25) for t in vl], [mpref.nstr(t, 25) for t in vals], mpref.nstr(err, 5),
                 mpref.nstr(ratio, 5), mpref.nstr(b, 5),
-                " (accurate when the first segment is computed with 40 more bits)" if bucket.endswith("segment") else ""))
+                " (the same history is accurate when the first segment is computed with 40 more bits)"
+                if bucket.endswith("segment") else ""))
 
-        # ---- oracle (ii): second instance, sorted order, creation precision
-        g = make(p0)
-        mp.prec = p0
-        gv = {}
-        for xf in sorted(set(order_x)):
-            x = [h[1] for h in hist if h[0] == xf][0]
-            v = g(x)
-            vl = as_list(v, "g(%s)" % xf)
-            if vl is None:
-                return res
-            gv[xf] = vl
-        for xf, x, pnow, vl in hist:
+        # ---- oracle (ii): the twin evaluated in increasing order
+        for xf, pnow, vl in hist:
             vals, b = bound(xf, min(pnow, p0))
-            diff = max(abs(mpref.mp.make_mpf(a._mpf_) - mpref.mp.make_mpf(b_._mpf_)) for a, b_ in zip(vl, gv[xf]))
+            ga = [mpref.mp.make_mpf(t._mpf_) for t in vl]
+            gb = [mpref.mp.make_mpf(t._mpf_) for t in gv[xf]]
+            diff = max(abs(a - b_) for a, b_ in zip(ga, gb))
             # both values are roundings (to p_now and to p) of numbers of their own size
-            b = b + mpref.ldexp(max(abs(mpref.mp.make_mpf(a._mpf_)) for a in list(vl) + list(gv[xf])), 1 - min(pnow, p0))
+            b = b + mpref.ldexp(max(abs(t) for t in ga + gb), 1 - min(pnow, p0))
             if not diff <= b:
-                res.bad("order:%s" % fam, "%s: f(%s) in the history order %s (at prec %d) = %s but %s when the points are "
-                        "evaluated in increasing order; difference %s, allowed %s" % (
-                            desc, xf, [str(t) for t in order_x], pnow, [mp.nstr(t, 25) for t in vl],
-                            [mp.nstr(t, 25) for t in gv[xf]], mpref.nstr(diff, 5), mpref.nstr(b, 5)))
+                res.bad("order:%s" % fam, "%s: f(%s) in the history order %s (precisions %s) = %s but %s when the points "
+                        "are evaluated in increasing order at prec %d; difference %s, allowed %s" % (
+                            desc, xf, [str(t) for t in order_x], precs, [mp.nstr(t, 25) for t in vl],
+                            [mp.nstr(t, 25) for t in gv[xf]], p0, mpref.nstr(diff, 5), mpref.nstr(b, 5)))
                 break
         return res
-    finally:
-        mp.prec = 53
-        mpref.mp.prec = refprec0
